@@ -289,6 +289,8 @@ def build(grammar, lexer, ambiguity, timeout=10.0):
     except GrammarError as e:
         return 'GrammarError', str(e)[:200]
     except Hang:
+        if timeout < 60:       # slow machine or a real hang: decide with a generous limit
+            return build(grammar, lexer, ambiguity, timeout=90.0)
         return 'hang', None
     except Exception as e:       # noqa
         return 'error', '%s: %s' % (type(e).__name__, str(e)[:200])
@@ -423,7 +425,8 @@ def check_grammar(ctx, rng, gtext, stream, cases, meta, seen_terms, n_exh, n_ext
                   ignore=False):
     if ignore:
         gtext += '%ignore " "\n'
-    ambiguity = rng.choice([None, 'forest', 'forest', 'explicit'])
+    # ambiguity='explicit' enumerates all derivations (exponential output on these grammars): it belongs to C04
+    ambiguity = rng.choice([None, 'forest', 'forest'])
     comps = {}
     for lexer in lexers:
         st, obj = build(gtext, lexer, ambiguity)
@@ -496,6 +499,8 @@ def check_grammar(ctx, rng, gtext, stream, cases, meta, seen_terms, n_exh, n_ext
         want = member(comp0.abs_rules, comp0.start, len(toks), tspans)
         for lexer, comp in comps.items():
             status, pos, log = run_parse(comp.lark, text)
+            if status == 'hang':     # slow machine or a real hang: decide with a generous limit
+                status, pos, log = run_parse(comp.lark, text, timeout=30.0)
             got = status == 'accept'
             w = {'grammar': gtext, 'lexer': lexer, 'ambiguity': ambiguity, 'text': text, 'mode': 'parse',
                  'expected_accept': want, 'observed': status}
@@ -708,7 +713,7 @@ def replay(ctx, case):
         return st != 'ok' and not (st == 'GrammarError' and 'Rules defined twice' in str(obj))
     if st != 'ok':
         return True
-    status, pos, log = run_parse(obj, w['text'])
+    status, pos, log = run_parse(obj, w['text'], timeout=30.0)
     if status == 'hang' or status.startswith('other:') or status.startswith('UnexpectedInput:'):
         return True
     if 'expected_accept' in w:
